@@ -106,18 +106,25 @@ def isScalar : JV → Bool
   | _ => false
 
 /-- Type bracketing: `$gt/$gte/$lt/$lte` compare only values of the same BSON type class
-    (numbers with numbers, strings with strings by code unit order, booleans false<true, null with
-    null); a missing field behaves as null. -/
-def ordCmp : JV → JV → Option Ordering
-  | .num x, .num y => some (compare x y)
-  | .str s, .str t => some (compare s t)
-  | .bool x, .bool y => some (compare x y)
-  | .null, .null => some .eq
-  | _, _ => none
+    (numbers with numbers, strings with strings by code point order, booleans false<true, null
+    only equal to null); a missing field behaves as null.  `ordLt v a`: v sorts before a within
+    one class; `ordEq v a`: same class and equal. -/
+def ordLt : JV → JV → Bool
+  | .num x, .num y => decide (x < y)
+  | .str s, .str t => decide (s < t)
+  | .bool x, .bool y => !x && y
+  | _, _ => false
 
-def isGt (v a : JV) : Bool := match ordCmp v a with | some .gt => true | _ => false
-def isLt (v a : JV) : Bool := match ordCmp v a with | some .lt => true | _ => false
-def isEq (v a : JV) : Bool := match ordCmp v a with | some .eq => true | _ => false
+def ordEq : JV → JV → Bool
+  | .num x, .num y => x == y
+  | .str s, .str t => s == t
+  | .bool x, .bool y => x == y
+  | .null, .null => true
+  | _, _ => false
+
+def isGt (v a : JV) : Bool := ordLt a v
+def isLt (v a : JV) : Bool := ordLt v a
+def isEq (v a : JV) : Bool := ordEq v a
 
 /-- `none`: MongoDB rejects the query (`$in` needs an array, `$not` needs an operator expression). -/
 def evalOp : MOp → JV → Option Bool
